@@ -76,6 +76,9 @@ def streams(r, cls, tier):
         near = []
         for v in gens.near_pool(r, cls, n):
             near.append(v.string)
+        # every word the class's own source knows, once, next to its base (adjacent entries get compared)
+        for b, x in gens.mined_pairs(r, cls, 80 if tier == "quick" else 400):
+            near += [b, x]
         out["near"] = near
     out["small"] = small_alphabet_strings(name, 120 if tier == "quick" else 2500, r)
     mal = []
